@@ -192,7 +192,7 @@ def stub(k00: int, k01: int, k02: int, k03: int, k10: int, k11: int, k12: int, k
 
 def exts_history(a1: int, a2: int, a3: int, tamper: bool) -> bool:
     """
-    pre: 0 <= a1 < 8 and 0 <= a2 < 8 and 0 <= a3 < 8
+    pre: 0 <= a1 < 9 and 0 <= a2 < 9 and 0 <= a3 < 9
     post: _
     """
     # (S4) over histories with interrupted patches, discards and reopens (vt/mfhist.py): the manifest of the
